@@ -131,6 +131,41 @@ def mk(kind, *args):
   return Poly.atom(Atom(kind, *a))
 
 
+_MIRROR = {"Eq": "Eq", "NotEq": "NotEq", "Lt": "Gt", "Gt": "Lt", "LtE": "GtE", "GtE": "LtE", "Is": "Is", "IsNot": "IsNot"}
+
+
+def _is_literal(x):
+  if isinstance(x, Const):
+    return True
+  if isinstance(x, Seq):
+    return all(_is_literal(i) for i in x.items)
+  return isinstance(x, Poly) and x.is_const()
+
+
+def _cond_polys(c):
+  if isinstance(c, Poly):
+    yield c
+  elif isinstance(c, (tuple, list)):
+    for x in c:
+      yield from _cond_polys(x)
+  elif isinstance(c, Seq):
+    for x in c.items:
+      yield from _cond_polys(x)
+
+
+def _is_alias(x):
+  """x is `container[index]` of a container that is a parameter / loop-carried value (an element that lives on in its container), not a fresh local list"""
+  a = x.as_atom() if isinstance(x, Poly) else None
+  if a is None or a.kind != "idx" or len(a.args) != 2:
+    return False
+  b = as_poly(a.args[0]).as_atom()
+  seen = 0
+  while b is not None and b.kind in ("idx", "upd") and seen < 8:
+    b = as_poly(b.args[0]).as_atom()
+    seen += 1
+  return b is not None and b.kind in ("param", "sym")
+
+
 def _listlike(x):
   if isinstance(x, Seq):
     return x.kind == "list"
@@ -513,6 +548,14 @@ class Walker:
     c = self.cond(e.test, st)
     a = self.ev(e.body, st)
     b = self.ev(e.orelse, st)
+    # `x if x < y else y` is min(x, y), `x if x > y else y` is max(x, y) (either operand order, strict or not: the values coincide on ties)
+    if isinstance(c, tuple) and c and c[0] == "cmp" and c[1] in ("Lt", "LtE", "Gt", "GtE") and isinstance(a, (Poly, int)) and isinstance(b, (Poly, int)) \
+        and isinstance(c[2], (Poly, int)) and isinstance(c[3], (Poly, int)):
+      l_, r_, pa_, pb_ = as_poly(c[2]), as_poly(c[3]), as_poly(a), as_poly(b)
+      if (l_ == pa_ and r_ == pb_) or (l_ == pb_ and r_ == pa_):
+        pick_left = (l_ == pa_)
+        less = c[1] in ("Lt", "LtE")
+        return mk("min" if less == pick_left else "max", pa_, pb_)
     ITE_CONDS[repr(c)] = c
     return mk("ite", P("cond", repr(c)), as_poly(a), as_poly(b))
 
@@ -744,9 +787,24 @@ class Walker:
         return mk("get", rp, *pa)
       if m in MUTATORS:
         base = e.func.value
+        if m == "extend" and len(args) == 1 and not kwargs and isinstance(args[0], Seq) and args[0].items and isinstance(base, ast.Name):
+          # L.extend([x, y]) is L.append(x); L.append(y)
+          for it_ in args[0].items:
+            cur_ = st.env.get(base.id)
+            rp_ = as_poly(cur_) if cur_ is not None else rp
+            self.emit("mutate", e, st, method="append", recv=cur_ if cur_ is not None else recv, args=[it_], target=base)
+            if isinstance(cur_, Seq) and cur_.kind == "list" and cur_.items and not isinstance(it_, tuple):
+              st.env[base.id] = Seq(list(cur_.items) + [it_], "list")
+            else:
+              st.env[base.id] = mk("mut", rp_, P("lit", "append"), as_poly(it_), P("u", next(self.fresh)))
+          return NONE
         self.emit("mutate", e, st, method=m, recv=recv, args=args, target=base)
         if isinstance(base, ast.Name):
-          st.env[base.id] = mk("mut", rp, P("lit", m), *pa, P("u", next(self.fresh)))
+          cur = st.env.get(base.id)
+          if m == "append" and len(args) == 1 and not kwargs and isinstance(cur, Seq) and cur.kind == "list" and cur.items and not isinstance(args[0], tuple):
+            st.env[base.id] = Seq(list(cur.items) + [args[0]], "list")        # [a, b].append(c) is the literal list [a, b, c]
+          else:
+            st.env[base.id] = mk("mut", rp, P("lit", m), *pa, P("u", next(self.fresh)))
         if m in ("pop", "popitem", "setdefault", "add"):
           return mk("mcall", rp, P("lit", m), *pa, P("u", next(self.fresh)))
         return NONE
@@ -788,6 +846,9 @@ class Walker:
                                           ("gcd", "mod", "fdiv", "shr", "shl", "band", "bor", "bxor", "bitlen", "len", "isqrt", "pow", "abs", "min", "max")):
             cs.append(("const", opn in ("IsNot", "NotEq")))
             continue
+        # one orientation for comparisons with a literal: the literal goes to the right (`0 == x` is `x == 0`, `1 < n` is `n > 1`)
+        if opn in _MIRROR and _is_literal(a2) and not _is_literal(b2):
+          a2, b2, opn = b2, a2, _MIRROR[opn]
         cs.append(("cmp", opn, a2, b2))
       return cs[0] if len(cs) == 1 else ("and", cs)
     v = self.ev(e, st)
@@ -835,6 +896,10 @@ class Walker:
       else:
         idx = self.ev(t.slice, st)
       outer = {}
+      if isinstance(t.value, ast.Name) and _is_alias(st.env.get(t.value.id)):
+        al = as_poly(st.env[t.value.id]).as_atom()
+        self.emit("store", node, st, base=base, index=idx, value=v, target=t, outer_base=as_poly(al.args[0]), outer_index=as_poly(al.args[1]))
+        return
       if isinstance(t.value, ast.Subscript) and not isinstance(t.value.slice, ast.Slice):
         # M[r][c] = v: the row M[r] may be normalised away (a row of a comprehension-built matrix is its element expression); keep M and r
         self.quiet += 1
@@ -934,6 +999,34 @@ class Walker:
   def stmt(self, n, st):
     self.paths += 0
     if isinstance(n, ast.Assign):
+      # `x = x + e` / `x = e + x` on numbers is the augmented assignment `x += e`: it is handled (and reported) as one
+      if len(n.targets) == 1 and isinstance(n.targets[0], ast.Name) and isinstance(n.value, ast.BinOp):
+        x_ = n.targets[0].id
+        l_, r_ = n.value.left, n.value.right
+        other = None
+        if isinstance(l_, ast.Name) and l_.id == x_ and not any(isinstance(y, ast.Name) and y.id == x_ for y in ast.walk(r_)):
+          other = r_
+        elif isinstance(r_, ast.Name) and r_.id == x_ and isinstance(n.value.op, (ast.Add, ast.Mult, ast.BitOr, ast.BitAnd, ast.BitXor)) \
+            and not any(isinstance(y, ast.Name) and y.id == x_ for y in ast.walk(l_)):
+          other = l_
+        cur = st.env.get(x_)
+        if other is not None and isinstance(cur, Poly):
+          self.quiet += 1
+          try:
+            probe = self.ev(other, st.fork())
+          finally:
+            self.quiet -= 1
+          if isinstance(probe, (Poly, int)) or (isinstance(probe, Const) and isinstance(probe.v, (int, float)) and not isinstance(probe.v, bool)):
+            aug = ast.copy_location(ast.AugAssign(target=ast.Name(id=x_, ctx=ast.Store()), op=n.value.op, value=other), n)
+            ast.fix_missing_locations(aug)
+            n.op = n.value.op                      # rules read the operator off the statement node
+            r = self.ev(other, st)
+            v = self.binop(n.value.op, as_poly(cur), as_poly(r), n)
+            st.env[x_] = v
+            st.last_rhs.pop(x_, None)
+            self.emit("augassign", n, st, name=x_, value=v, rhs=r)
+            yield ("fall", None, st)
+            return
       v = self.ev(n.value, st)
       for t in n.targets:
         self.bind(t, v, st, n)
@@ -1045,6 +1138,79 @@ class Walker:
       self.note("statement %s" % type(n).__name__, None)
       yield ("fall", None, st)
 
+  def _filtered_append(self, v, hv, ends, visit, mod, henv, k, itv, pre_v):
+    if isinstance(pre_v, Seq) and pre_v.items:
+      return None
+    ka = as_poly(k).as_atom()
+    if ka is None:
+      return None
+    base_pc = len(visit["head"].pc)
+    app, skip = [], []
+    for s2 in ends:
+      cur = s2.env.get(v)
+      a = cur.as_atom() if isinstance(cur, Poly) else None
+      if isinstance(cur, Poly) and cur == hv:
+        skip.append(s2)
+      elif a is not None and a.kind == "mut" and len(a.args) == 4 and a.args[0] == hv and a.args[1] == P("lit", "append"):
+        app.append((s2, a.args[2]))
+      else:
+        return None
+    if not app or not skip or any(repr(x) != repr(app[0][1]) for _, x in app):
+      return None
+    # one deciding test: every appending pass has it with one polarity, every other pass with the opposite one, and it is the only new condition
+    def new_pc(s2):
+      return s2.pc[base_pc:]
+    tests = {}
+    for s2, _ in app:
+      pcs = new_pc(s2)
+      if len(pcs) != 1:
+        return None
+      tests[(id(pcs[0][2]), pcs[0][1])] = pcs[0]
+    if len(tests) != 1:
+      return None
+    (nid, pol), (ctree, _, node) = list(tests.items())[0]
+    for s2 in skip:
+      pcs = new_pc(s2)
+      if len(pcs) != 1 or id(pcs[0][2]) != nid or pcs[0][1] == pol:
+        return None
+    carried = set()
+    for v2 in mod:
+      hv2 = henv.get(v2)
+      if isinstance(hv2, Poly) and hv2.as_atom() is not None and hv2.as_atom().kind == "sym" and hv2.as_atom() != ka:
+        carried.add(hv2.as_atom())
+    elt = as_poly(app[0][1])
+    if any(x in carried for x in elt.all_atoms()):
+      return None
+    bv = Atom("bv", "b%d" % next(self.fresh))
+
+    def sub_c(c):
+      if isinstance(c, Poly):
+        return rebuild(c.deep_subst(ka, Poly.atom(bv)))
+      if isinstance(c, tuple):
+        return tuple(sub_c(x) for x in c)
+      if isinstance(c, list):
+        return [sub_c(x) for x in c]
+      if isinstance(c, Seq):
+        return Seq([sub_c(x) for x in c.items], c.kind)
+      return c
+    c1 = sub_c(ctree)
+    if any(isinstance(x, Poly) and any(y in carried for y in x.all_atoms()) for x in _cond_polys(c1)):
+      return None
+    conds = [c1 if pol else ("not", c1)]
+    FILTER_CONDS[repr(conds)] = conds
+    src = self.iter_source(itv)
+    src_f = mk("filter", as_poly(src[0]) if src else as_poly(itv), P("cond", repr(conds)))
+    # the element in terms of the filtered source: the loop item it[k] becomes filtered[bv2]; any other use of k cannot be expressed
+    bv2 = Atom("bv", "b%d" % next(self.fresh))
+    item = mk("idx", as_poly(itv), Poly.atom(ka))
+    ia = item.as_atom()
+    if ia is None:
+      return None
+    elt2 = rebuild(elt.deep_subst(ia, mk("idx", src_f, Poly.atom(bv2))))
+    if ka in elt2.all_atoms():
+      return None
+    return Poly.atom(Atom("map", elt2, bv2, as_poly(src_f)))
+
   def _load(self, t):
     t2 = ast.parse(ast.unparse(t), mode="eval").body
     return t2
@@ -1055,6 +1221,13 @@ class Walker:
     mod = self.assigned_names(n.body)
     if is_for:
       mod |= self.assigned_names([ast.Expr(n.target)]) | {x.id for x in ast.walk(n.target) if isinstance(x, ast.Name)}
+    # `row = m[j]` before the loop and only `row[c] = v` inside: row still names that element of m (stores through it are recorded with their outer base)
+    rebound = {x.id for x in ast.walk(ast.Module(body=list(n.body), type_ignores=[])) if isinstance(x, ast.Name) and isinstance(x.ctx, (ast.Store, ast.Del))}
+    mutated = {x.func.value.id for x in ast.walk(ast.Module(body=list(n.body), type_ignores=[])) if isinstance(x, ast.Call) and isinstance(x.func, ast.Attribute)
+               and x.func.attr in MUTATORS and isinstance(x.func.value, ast.Name)}
+    for v_ in sorted(mod):
+      if v_ not in rebound and v_ not in mutated and _is_alias(st.env.get(v_)) and not (is_for and v_ in {x.id for x in ast.walk(n.target) if isinstance(x, ast.Name)}):
+        mod.discard(v_)
     itv = self.ev(n.iter, st) if is_for else None
     # literal iterable: unroll (e.g. `for r in [r0, 2**k - r0]`, `for rt in (t, -t)`)
     if is_for and self.unroll and isinstance(itv, Seq) and 0 < len(itv.items) <= 8:
@@ -1191,7 +1364,7 @@ class Walker:
       henv = visit["head"].env          # the head state proper (h itself has been advanced by the body)
       for v in mod:
         pre_v = st.env.get(v)
-        if not (isinstance(pre_v, Seq) and not pre_v.items and pre_v.kind == "list") or v not in henv or isinstance(henv[v], (Seq, Const, tuple)):
+        if not (isinstance(pre_v, Seq) and pre_v.kind == "list" and all(not isinstance(x_, tuple) for x_ in pre_v.items)) or v not in henv or isinstance(henv[v], (Seq, Const, tuple)):
           continue
         hv = as_poly(henv[v])
         elts = []
@@ -1202,7 +1375,12 @@ class Walker:
             elts = None
             break
           elts.append(a.args[2])
-        if not elts or any(repr(x) != repr(elts[0]) for x in elts):
+        if elts is None or (not elts) or any(repr(x) != repr(elts[0]) for x in elts):
+          # conditional append: `for t in it: if c(t): L.append(f(t))` is the filtered comprehension [f(t) for t in it if c(t)] - when the passes
+          # split into those under one condition that append once and those under its negation that leave L alone
+          filt = self._filtered_append(v, hv, ends, visit, mod, henv, k, itv, pre_v)
+          if filt is not None:
+            after.env[v] = filt
           continue
         elt = elts[0]
         carried = set()
@@ -1213,7 +1391,9 @@ class Walker:
         if ka is None or any(x in carried for x in elt.all_atoms()):
           continue
         bv = Atom("bv", "b%d" % next(self.fresh))
-        after.env[v] = Poly.atom(Atom("map", rebuild(elt.deep_subst(ka, Poly.atom(bv))), bv, as_poly(itv)))
+        tail = Poly.atom(Atom("map", rebuild(elt.deep_subst(ka, Poly.atom(bv))), bv, as_poly(itv)))
+        # a literal list that is extended by the loop: [r0, r1] + [f(t) for t in it]
+        after.env[v] = tail if not pre_v.items else mk("concat", as_poly(pre_v), tail)
     for v, t in thyps.items():
       if v not in hyps and isinstance(after.env.get(v), Poly) and after.env[v].as_atom() is not None:
         after.facts.append(("truthy" if t else "falsy", after.env[v]))
@@ -1253,3 +1433,50 @@ class Walker:
         else:
           yield (kind, val, s2)
     yield from run(0, st)
+
+
+def resolve_sums(w, p, depth=0):
+  """Replaces, in p, the exit value of a pure accumulation loop (acc = c; for t in it: acc += f(t), no early exit, f independent of other loop-carried
+  values) by c + sum(f(t) for t in it) - the form a `sum(<generator>)` has.  Other symbols are left alone."""
+  if not isinstance(p, Poly) or depth > 3:
+    return p
+  out = p
+  for a in list(p.all_atoms()):
+    if a.kind != "sym":
+      continue
+    target = Poly.atom(a)
+    for li in w.loop_info.values():
+      if not isinstance(li["node"], ast.For):
+        continue
+      for vis in li.get("visits", []):
+        names = [n_ for n_, x_ in (vis.get("after_env") or {}).items() if isinstance(x_, Poly) and x_ == target]
+        if not names:
+          continue
+        nm = names[0]
+        pre = vis["pre_env"].get(nm)
+        head = vis["head"].env
+        hv = head.get(nm)
+        if isinstance(pre, Const) and isinstance(pre.v, (int, float)) and not isinstance(pre.v, bool):
+          pre = as_poly(pre)
+        if not isinstance(pre, Poly) or not isinstance(hv, Poly):
+          continue
+        paths = [bp for bp in li["body_paths"] if bp[4] is vis]
+        if not paths or any(bp[0] not in ("fall", "continue") for bp in paths):
+          continue
+        deltas = [bp[2].env.get(nm) for bp in paths]
+        if any(not isinstance(d_, Poly) for d_ in deltas):
+          continue
+        elts = [d_ - hv for d_ in deltas]
+        if any(e_ != elts[0] for e_ in elts):
+          continue
+        elt = elts[0]
+        ka = as_poly(vis["k"]).as_atom()
+        carried = {head[v_].as_atom() for v_ in li["modified"] if isinstance(head.get(v_), Poly) and head[v_].as_atom() is not None and head[v_].as_atom().kind == "sym" and head[v_].as_atom() != ka}
+        if ka is None or any(x_ in carried for x_ in elt.all_atoms()):
+          continue
+        bv = Atom("bv", "r%s" % str(a.args[0]).replace("#", "_"))
+        summed = mk("sum", Poly.atom(Atom("map", rebuild(elt.deep_subst(ka, Poly.atom(bv))), bv, as_poly(vis["iter"]))))
+        out = rebuild(out.deep_subst(a, pre + summed))
+  if out != p:
+    return resolve_sums(w, out, depth + 1)
+  return out
